@@ -168,6 +168,65 @@ def run(chk):
     okc = bool(ci) and any(txt(x).replace("state.", "") == "cache_initialized = true" for x in walk(ci[0]["then"]))
     chk.ob("C20-D4.loop", fn.name, "cache filled exactly when not initialised", okc, fn.loc(ci[0]) if ci else fn.where)
 
+    # ------------------------------------------------------------------ D6 the flag 'best positions known' is only raised after the bests were reconciled with the cache
+    chk.rule("C20-D6.sync", "ParticleSwarm raises best_positions_initialized only after update() has run on every path from the entry of the call: a state whose bests were cleared "
+                            "while the cache of the current positions was kept (clearBestParticles) adopts the cached in-domain positions before the flag says the bests are known")
+    from tsg.typestate import must_pass_before
+    nsync = 0
+    for n in walk(fn.body, into_lambda=False):
+        if n.get("k") == "BinaryOperator" and n.get("op") == "=" and txt(strip(n["c"][0])).replace("state.", "") == "best_positions_initialized" and txt(strip(n["c"][1])) == "true":
+            nsync += 1
+            okb = must_pass_before(fn, n, lambda q: q.get("k") == "CXXOperatorCallExpr" and q.get("op") == "()" and var_of(q["c"][1]) == upd["did"])
+            chk.ob("C20-D6.sync", fn.name, "best_positions_initialized = true @%d is preceded by update() on every path" % n.get("l", 0), bool(okb), fn.loc(n),
+                   "" if okb else "a path reaches the flag without update(): with a kept cache and cleared bests the flag is raised over zero-filled best strips")
+    chk.floor("C20-D6.sync", nsync, 1, "writes raising best_positions_initialized in ParticleSwarm")
+
+    # ------------------------------------------------------------------ D7 the cache flag is down while the user's callbacks run on new positions
+    chk.rule("C20-D7.stale", "whenever the constrained objective (which calls the user's domain test and objective, and may throw) is evaluated on the current positions, cache_initialized is "
+                             "known to be false on every path (must-analysis of the flag over the CFG), and it is raised again right after: a failed evaluation never leaves a cache that is "
+                             "marked valid for positions that were not evaluated")
+    from tsg.typestate import flag_known, must_pass_after
+
+    def flag_is(x):
+        kind, n = x
+        if kind == "read":
+            return txt(n).replace("state.", "") == "cache_initialized"
+        if n.get("k") == "BinaryOperator" and n.get("op") == "=" and txt(strip(n["c"][0])).replace("state.", "") == "cache_initialized":
+            v = txt(strip(n["c"][1]))
+            return True if v == "true" else False if v == "false" else None
+        return None
+    evals = [c for c in walk(fn.body, into_lambda=False) if c.get("k") == "CXXOperatorCallExpr" and c.get("op") == "()" and var_of(c["c"][1]) == fcd["did"]
+             and txt(strip(c["c"][2])).replace("state.", "") == "particle_positions"]
+    known = flag_known(fn, flag_is, False, evals)
+    for c in evals:
+        chk.ob("C20-D7.stale", fn.name, "evaluation of the current positions @%d runs with cache_initialized == false" % c.get("l", 0), bool(known.get(c["id"])), fn.loc(c),
+               "" if known.get(c["id"]) else "a path reaches the evaluation with the flag still raised: if the objective or the domain test throws, the state keeps moved positions and a cache marked valid")
+        if not known.get(c["id"]):
+            continue
+        after = must_pass_after(fn, c, lambda q: flag_is(("write", q)) is True)
+        chk.ob("C20-D7.stale", fn.name, "cache_initialized raised again after the evaluation @%d" % c.get("l", 0), bool(after), fn.loc(c))
+    chk.floor("C20-D7.stale", len(evals), 2, "evaluations of the current positions")
+    # the swarm best is reconciled with the personal bests when these are evaluated afresh
+    bevals = [c for c in walk(fn.body, into_lambda=False) if c.get("k") == "CXXOperatorCallExpr" and c.get("op") == "()" and var_of(c["c"][1]) == fcd["did"]
+              and txt(strip(c["c"][2])).replace("state.", "") == "best_particle_positions"]
+    for c in bevals:
+        def reconciles(q):
+            # a write of the swarm-best flag / value guarded by a comparison of a personal best with the swarm best
+            if q.get("k") == "BinaryOperator" and q.get("op") == "=" and txt(strip(q["c"][0])).replace("state.", "") == "cache_best_particle_fvals[num_particles]":
+                return any("cache_best_particle_fvals[num_particles]" in txt(e) and "<" in txt(e) for e, tr in cond_edges_dominating(fn, q) if tr)
+            return False
+        # the reconciliation sits in a loop (possibly of zero iterations): require the loop on every path instead of the write itself
+        loops_after = [l for l in walk(fn.body, into_lambda=False) if l.get("k") == "ForStmt" and any(reconciles(q) for q in walk(l, into_lambda=False))]
+        okr = bool(loops_after) and bool(must_pass_after(fn, c, lambda q: any(q.get("id") == (strip(l.get("cond")) or {}).get("id") or q is l.get("cond") for l in loops_after)))
+        chk.ob("C20-D2.best", fn.name, "after the personal bests are evaluated afresh @%d the swarm best becomes the minimum over them" % c.get("l", 0), okr, fn.loc(c),
+               "" if okr else "best positions provided through setBestParticlePositions keep a swarm-best strip that is worse than a personal best (or outside the domain)")
+
+    from rules import reentrant
+    chk.rule("C20-D8.reentrant", "ParticleSwarm and its lambdas keep no working storage with static or thread storage duration: the result of a call depends on the state object, the "
+                                 "arguments and the random stream only (n then m iterations equal n + m), also when a callback runs another swarm")
+    nre = reentrant.reentrant_rule(chk, db, "C20-D8.reentrant", ("TasOptimization::ParticleSwarm",), [CPP, HPP])
+    chk.floor("C20-D8.reentrant", nre, 3, "ParticleSwarm and its lambdas")
+
     # ------------------------------------------------------------------ D5 (OpenMP configuration)
     odb = DB("omp")
     ofn = [f for f in odb.fns("TasOptimization::ParticleSwarm", [CPP]) if not f.d.get("islambda")][0]
